@@ -229,7 +229,55 @@ class Bound(Harness):
         ctx.observe(n, len(rec.log))
 
 
-FREE, STRUCTURED, BOUND = Free(), Structured(), Bound()
+ITEMS = ("FRAME", "SUB", "CAN", "FLAG", "JUNK")
+
+
+class Mixed(Harness):
+    """(d) longer streams of whole valid DATA frames interleaved with control bytes, in one read or cut at any item
+    boundary or inside the first frame: the frame contents are concrete, the *structure* is solver-decided."""
+
+    name = "c02_mixed"
+    must_reach = ("up", "tx-ACK", "tx-NAK", "two-up", "frame-after-substitute")
+    functions = Free.functions
+
+    def run(self, ctx, k=5, items=ITEMS):
+        ash, p, rec = mk(ctx, 0)
+        parts = []
+        nfr = 0
+        kinds = []
+        for j in range(k):
+            it = items[ctx.choice("item%d" % j, len(items))]
+            kinds.append(it)
+            if it == "FRAME":
+                parts.append(R.wire(R.data_frame(nfr % 8, 0, 0, [0xA0 + nfr, 0x5A])))
+                nfr += 1
+            else:
+                parts.append([{"SUB": R.SUB, "CAN": R.CAN, "FLAG": R.FLAG, "JUNK": 0x42, "XON": R.XON, "ESC": R.ESC}[it]])
+        s = [b for pt in parts for b in pt]
+        bounds = [0]
+        for pt in parts:
+            bounds.append(bounds[-1] + len(pt))
+        places = sorted(set(bounds[1:-1]) | ({2} if len(s) > 3 else set()))
+        c = ctx.choice("cut", len(places) + 1)
+        chunks = [s] if c == 0 else [s[:places[c - 1]], s[places[c - 1]:]]
+        ref = R.RefReceiver(0)
+        ref.feed(s)
+        feed_impl(ctx, p, chunks)
+        if ref.dontcare:
+            ctx.label("dontcare")
+            ctx.observe("dontcare")
+            return
+        compare(ctx, rec, ref, what="stream %s cut=%d: " % ("+".join(kinds), c))
+        if len([e for e in ref.events if e[0] == "up"]) >= 2:
+            ctx.label("two-up")
+        if "SUB" in kinds and "FRAME" in kinds[kinds.index("SUB"):] and kinds[0] == "FRAME":
+            ctx.label("frame-after-substitute")
+        ctx.check(p._rx_seq == ref.rx_seq, "expected frame number differs from the reference decoder after the stream", "rx-seq")
+        ctx.check(p._discarding_until_next_flag == ref.discard, "discard-until-FLAG state differs from the reference decoder after the stream", "discard-state")
+        ctx.observe(kinds, c, [e[0] for e in rec.log])
+
+
+FREE, STRUCTURED, BOUND, MIXED = Free(), Structured(), Bound(), Mixed()
 
 
 def main(tier):
@@ -247,6 +295,7 @@ def main(tier):
         c.run("checks.c02:FREE", {"N": 4, "cuts": "all"})
         c.run("checks.c02:STRUCTURED", {"k": 2, "cut": True, "kinds": ("data", "rstack", "reserved")})
         c.run("checks.c02:BOUND", {})
+        c.run("checks.c02:MIXED", {"k": 5})
         c.out_of_bounds += ["free streams longer than 5 bytes (whole) / 4 bytes (all 2^(n-1) partitions); longer inputs only in the structured family (2 segments of valid DATA / RSTACK / reserved byte, one cut; corrupted segments in thorough)",
                             "tracemalloc measurement", "streams longer than the stated bounds"]
     else:
@@ -255,6 +304,7 @@ def main(tier):
         c.run("checks.c02:STRUCTURED", {"k": 2, "cut": True}, wall_s=3000)
         c.run("checks.c02:STRUCTURED", {"k": 3, "cut": True, "kinds": ("data", "rstack", "reserved")}, wall_s=3000)
         c.run("checks.c02:BOUND", {})
+        c.run("checks.c02:MIXED", {"k": 6, "items": ["FRAME", "SUB", "CAN", "FLAG", "JUNK", "XON", "ESC"]}, wall_s=3000)
         c.out_of_bounds += ["free streams longer than 6 bytes (whole) / 5 bytes (all partitions); structured family 3 segments, one cut", "tracemalloc measurement"]
     return c.finish()
 
